@@ -33,14 +33,15 @@ LEVEL_TEXT = (
     "[n,None], [0,None], loose; doomed, identity and zero-column leaves).  For the root and every sub-node the true "
     "content is computed by the reference evaluator from the decoded sub-tree - never by the engine, which trusts "
     "the flags under test - and compared with columns, [min_rows, max_rows], is_join_identity and max_rows == 0; the "
-    "engine's own result for the root must agree as well."
+    "engine's own result for the root must agree as well, and afterwards every leaf is executed again: it must still "
+    "yield its own rows within its declared bounds."
 )
 LEVEL_NOTE = "trusts: decode() of library trees through public dataclass fields, reference evaluator; leaves' declared bounds are truthful by construction"
 RULE = (
     "case = (engine family, program).  Oracle per library node n with true rows T = ev(decode(n)): keys of every row "
     "of T == n.columns; n.min_rows <= |T| <= n.max_rows; n.is_join_identity => T == [{}]; n.max_rows == 0 => T == []; "
     "nodes whose content is ambiguous (LIMIT without order) are checked on the row count when that is still "
-    "determined, else skipped and counted.  Root: engine result agrees with T.  Non-trivial: the program has a "
+    "determined, else skipped and counted.  Root: engine result agrees with T; each leaf re-executed afterwards gives its rows.  Non-trivial: the program has a "
     "bound-changing operation (slice, dedup, join, chain, selection) and a leaf whose declared bounds are not [0, None]; "
     "distinct by case digest."
 )
